@@ -111,9 +111,14 @@ Definition ralloc (bytes : Z) : R unit :=
 
 Definition swapb (bs : list Z) : list Z := if swp then rev bs else bs.
 
-(* fread(buf, 1, n, f) != n  ->  SBDF_ERROR_IO *)
+(* fread(buf, 1, n, f) != n  ->  SBDF_ERROR_IO.  (split_at walks only the n bytes it takes: the
+   model is run on files of a megabyte, so no primitive may measure the whole remaining stream) *)
 Definition fread_bytes (n : Z) : R (list Z) := fun s =>
-  if (0 <=? n) && (n <=? zlen s) then Ok (ztake n s, zdrop n s) else Err SBDF_ERROR_IO.
+  if n <? 0 then Err SBDF_ERROR_IO else
+  match split_at (Z.to_nat n) s with
+  | Some (a, t) => Ok (a, t)
+  | None => Err SBDF_ERROR_IO
+  end.
 
 Definition fseek_cur (k : Z) : R unit := fun s =>
   if k <? 0 then Err SBDF_ERROR_IO else Ok (tt, zdrop k s).
